@@ -842,6 +842,18 @@ class SymEval:
                 pass
         if f[0] == "builtin" and f[1] == "len" and len(args) == 1 and args[0][0] == "gval":
             return const(len(args[0][1].v))
+        if f[0] == "builtin" and f[1] == "len" and len(args) == 1 and args[0][0] == "tuple":
+            return const(len(args[0][1]))
+        if f[0] == "builtin" and f[1] == "isinstance" and len(args) == 2 and not kwargs:
+            ty = static_type(args[0])
+            want = args[1]
+            names = None
+            if want[0] == "builtin":
+                names = (want[1],)
+            elif want[0] == "tuple" and all(x[0] == "builtin" for x in want[1]):
+                names = tuple(x[1] for x in want[1])
+            if ty is not None and names is not None and all(n in _TYPES for n in names):
+                return const(any(issubclass(ty, _TYPES[n]) for n in names))
         if f[0] == "attr" and f[2] in PURE_METHODS and (is_const(recv) or recv[0] == "gval") and all(is_const(a) for a in args) and all(is_const(v) for _, v in kwargs):
             try:
                 rv = recv[1] if is_const(recv) else recv[1].v
@@ -862,6 +874,30 @@ class SymEval:
             if not (f == ("builtin", "setattr") and len(args) == 3 and is_const(args[1])):
                 st.env["self.*"] = ("after", uid)
         return t
+
+
+_TYPES = {"tuple": tuple, "int": int, "str": str, "dict": dict, "list": list, "bytes": bytes, "float": float, "bool": bool, "set": set, "bytearray": bytearray}
+
+
+def static_type(t):
+    """Python type of the value a term denotes, when it is evident from the term's shape."""
+    if is_const(t):
+        return type(t[1])
+    if t[0] == "tuple":
+        return tuple
+    if t[0] == "list":
+        return list
+    if t[0] in ("dict",):
+        return dict
+    if t[0] == "set":
+        return set
+    if t[0] == "fstr":
+        return str
+    if t[0] == "gval":
+        return type(t[1].v) if type(t[1].v) in (dict, list, set) else (dict if isinstance(t[1].v, dict) else None)
+    if t[0] == "typed":
+        return t[1]
+    return None
 
 
 class _Box:
